@@ -195,14 +195,48 @@ package arraylist
 //@     decreases iterator.index + 1
 
 
+// ---- JSON (C11 round trip, C12 replace / sound / atomic) ----
+
+//@ func List.ToJSON
+//@   requires Inv(list)
+//@   modifies nothing
+//@   ensures [C11 C17 C18] result1 == nil && fresh(arr(result0)) && jarr_kind(result0, elemof(list.elements)) == 3 && jarr_len(result0, elemof(list.elements)) == len(Seq(list))
+//@     && (forall i :: 0 <= i && i < len(Seq(list)) ==> jarr_at(result0, i, elemof(list.elements)) == Seq(list)[i])
+
+//@ func List.MarshalJSON
+//@   requires Inv(list)
+//@   modifies nothing
+//@   ensures [C11 C17 C18] result1 == nil && fresh(arr(result0)) && jarr_kind(result0, elemof(list.elements)) == 3 && jarr_len(result0, elemof(list.elements)) == len(Seq(list))
+//@     && (forall i :: 0 <= i && i < len(Seq(list)) ==> jarr_at(result0, i, elemof(list.elements)) == Seq(list)[i])
+
+//@ func List.FromJSON
+//@   requires Inv(list)
+//@   modifies list.elements, elems(list.elements)
+//@   ensures [C12 C17] Inv(list) && (result == nil <==> jarr_kind(data, elemof(list.elements)) >= 2)
+//@   ensures [C12] atomic: result != nil ==> Seq(list) == old(Seq(list))
+//@   ensures [C11 C12] loaded: jarr_kind(data, elemof(list.elements)) == 3 ==> len(Seq(list)) == jarr_len(data, elemof(list.elements)) && (forall i :: 0 <= i && i < len(Seq(list)) ==> Seq(list)[i] == jarr_at(data, i, elemof(list.elements)))
+//@   ensures [C16] Owned(list)
+//@   ensures [C12] null: jarr_kind(data, elemof(list.elements)) == 2 ==> len(Seq(list)) == 0
+
+//@ func List.UnmarshalJSON
+//@   requires Inv(list)
+//@   modifies list.elements, elems(list.elements)
+//@   ensures [C12 C17] Inv(list) && (result == nil <==> jarr_kind(bytes, elemof(list.elements)) >= 2)
+//@   ensures [C12] atomic: result != nil ==> Seq(list) == old(Seq(list))
+//@   ensures [C11 C12] loaded: jarr_kind(bytes, elemof(list.elements)) == 3 ==> len(Seq(list)) == jarr_len(bytes, elemof(list.elements)) && (forall i :: 0 <= i && i < len(Seq(list)) ==> Seq(list)[i] == jarr_at(bytes, i, elemof(list.elements)))
+//@   ensures [C12] null: jarr_kind(bytes, elemof(list.elements)) == 2 ==> len(Seq(list)) == 0
+
 // ---- enumerable (C14): agree with iteration, receiver unchanged, result fresh ----
 
+//@ -- Each: f is applied exactly to (j, Seq[j]) for j = 0..n-1, in that order, once each (ghost call log)
 //@ func List.Each
 //@   requires Inv(list) && f != nil
 //@   modifies nothing
-//@   ensures [C14 C17 C18] true
+//@   ensures [C14 C17 C18] loglen == old(loglen) + len(Seq(list))
+//@   ensures [C14] calls: forall j :: 0 <= j && j < len(Seq(list)) ==> logfun(old(loglen) + j) == f && logarg(old(loglen) + j, 0, 0) == j && logarg(old(loglen) + j, 1, elemof(list.elements)) == Seq(list)[j]
 //@   loop 1:
-//@     invariant ItInv(iterator) && iterator.list == list && fresh(iterator)
+//@     invariant ItInv(iterator) && iterator.list == list && fresh(iterator) && loglen == old(loglen) + min(iterator.index + 1, len(Seq(list)))
+//@     invariant forall j :: 0 <= j && j <= iterator.index && j < len(Seq(list)) ==> logfun(old(loglen) + j) == f && logarg(old(loglen) + j, 0, 0) == j && logarg(old(loglen) + j, 1, elemof(list.elements)) == Seq(list)[j]
 //@     decreases len(Seq(list)) - iterator.index
 
 //@ func List.Any
@@ -234,6 +268,7 @@ package arraylist
 //@     invariant forall j :: 0 <= j && j <= iterator.index && j < len(Seq(list)) ==> !f(j, Seq(list)[j])
 //@     decreases len(Seq(list)) - iterator.index
 
+//@ -- Map: a new list holding f(j, Seq[j]) at position j
 //@ func List.Map
 //@   requires Inv(list) && f != nil
 //@   modifies nothing
@@ -241,39 +276,31 @@ package arraylist
 //@     && (forall j :: 0 <= j && j < len(Seq(list)) ==> Seq(result)[j] == f(j, Seq(list)[j]))
 //@   ensures [C16] arr(result.elements) == 0 || fresh(arr(result.elements))
 //@   loop 1:
-//@     invariant ItInv(iterator) && iterator.list == list && fresh(iterator) && fresh(newList) && Inv(newList) && newList != iterator
-//@     invariant arr(newList.elements) == 0 || fresh(arr(newList.elements))
+//@     invariant ItInv(iterator) && iterator.list == list && fresh(iterator) && newList != iterator && fresh(newList) && Inv(newList) && newList != list && (arr(newList.elements) == 0 || fresh(arr(newList.elements)))
 //@     invariant len(Seq(newList)) == min(iterator.index + 1, len(Seq(list)))
 //@     invariant forall j :: 0 <= j && j < len(Seq(newList)) ==> Seq(newList)[j] == f(j, Seq(list)[j])
 //@     decreases len(Seq(list)) - iterator.index
 
-// ---- JSON (C11 round trip, C12 replace / sound / atomic) ----
-
-//@ func List.ToJSON
-//@   requires Inv(list)
+//@ -- Select: a new list holding exactly the elements for which f holds, in their original relative order;
+//@ -- src[k] (ghost) is the original position of result element k, dst[j] the result position of a selected j
+//@ func List.Select
+//@   requires Inv(list) && f != nil
 //@   modifies nothing
-//@   ensures [C11 C17 C18] result1 == nil && fresh(arr(result0)) && jarr_kind(result0, elemof(list.elements)) == 3 && jarr_len(result0, elemof(list.elements)) == len(Seq(list))
-//@     && (forall i :: 0 <= i && i < len(Seq(list)) ==> jarr_at(result0, i, elemof(list.elements)) == Seq(list)[i])
+//@   ghostvar src := idmap
+//@   ghostvar dst := idmap
+//@   at after Add#1: src := store(src, len(Seq(newList)) - 1, iterator.index)
+//@   at after Add#1: dst := store(dst, iterator.index, len(Seq(newList)) - 1)
+//@   ghostresult src mapint
+//@   ghostresult dst mapint
+//@   ensures [C14 C16 C17 C18] fresh(result) && Inv(result) && len(Seq(result)) <= len(Seq(list))
+//@   ensures [C14] selected: forall k :: 0 <= k && k < len(Seq(result)) ==> 0 <= src[k] && src[k] < len(Seq(list)) && f(src[k], Seq(list)[src[k]]) && Seq(result)[k] == Seq(list)[src[k]] && dst[src[k]] == k
+//@   ensures [C14] ordered: forall a, b :: 0 <= a && a < b && b < len(Seq(result)) ==> src[a] < src[b]
+//@   ensures [C14] complete: forall j :: 0 <= j && j < len(Seq(list)) && f(j, Seq(list)[j]) ==> 0 <= dst[j] && dst[j] < len(Seq(result)) && src[dst[j]] == j
+//@   ensures [C16] arr(result.elements) == 0 || fresh(arr(result.elements))
+//@   loop 1:
+//@     invariant ItInv(iterator) && iterator.list == list && fresh(iterator) && newList != iterator && fresh(newList) && Inv(newList) && newList != list && (arr(newList.elements) == 0 || fresh(arr(newList.elements))) && len(Seq(newList)) <= min(iterator.index + 1, len(Seq(list)))
+//@     invariant forall k :: 0 <= k && k < len(Seq(newList)) ==> 0 <= src[k] && src[k] <= iterator.index && src[k] < len(Seq(list)) && f(src[k], Seq(list)[src[k]]) && Seq(newList)[k] == Seq(list)[src[k]] && dst[src[k]] == k
+//@     invariant forall a, b :: 0 <= a && a < b && b < len(Seq(newList)) ==> src[a] < src[b]
+//@     invariant forall j :: 0 <= j && j <= iterator.index && j < len(Seq(list)) && f(j, Seq(list)[j]) ==> 0 <= dst[j] && dst[j] < len(Seq(newList)) && src[dst[j]] == j
+//@     decreases len(Seq(list)) - iterator.index
 
-//@ func List.MarshalJSON
-//@   requires Inv(list)
-//@   modifies nothing
-//@   ensures [C11 C17 C18] result1 == nil && fresh(arr(result0)) && jarr_kind(result0, elemof(list.elements)) == 3 && jarr_len(result0, elemof(list.elements)) == len(Seq(list))
-//@     && (forall i :: 0 <= i && i < len(Seq(list)) ==> jarr_at(result0, i, elemof(list.elements)) == Seq(list)[i])
-
-//@ func List.FromJSON
-//@   requires Inv(list)
-//@   modifies list.elements, elems(list.elements)
-//@   ensures [C12 C17] Inv(list) && (result == nil <==> jarr_kind(data, elemof(list.elements)) >= 2)
-//@   ensures [C12] atomic: result != nil ==> Seq(list) == old(Seq(list))
-//@   ensures [C11 C12] loaded: jarr_kind(data, elemof(list.elements)) == 3 ==> len(Seq(list)) == jarr_len(data, elemof(list.elements)) && (forall i :: 0 <= i && i < len(Seq(list)) ==> Seq(list)[i] == jarr_at(data, i, elemof(list.elements)))
-//@   ensures [C16] Owned(list)
-//@   ensures [C12] null: jarr_kind(data, elemof(list.elements)) == 2 ==> len(Seq(list)) == 0
-
-//@ func List.UnmarshalJSON
-//@   requires Inv(list)
-//@   modifies list.elements, elems(list.elements)
-//@   ensures [C12 C17] Inv(list) && (result == nil <==> jarr_kind(bytes, elemof(list.elements)) >= 2)
-//@   ensures [C12] atomic: result != nil ==> Seq(list) == old(Seq(list))
-//@   ensures [C11 C12] loaded: jarr_kind(bytes, elemof(list.elements)) == 3 ==> len(Seq(list)) == jarr_len(bytes, elemof(list.elements)) && (forall i :: 0 <= i && i < len(Seq(list)) ==> Seq(list)[i] == jarr_at(bytes, i, elemof(list.elements)))
-//@   ensures [C12] null: jarr_kind(bytes, elemof(list.elements)) == 2 ==> len(Seq(list)) == 0
